@@ -80,3 +80,263 @@ theorem sortByHeight_perm (l : List Block) : (sortByHeight l).Perm l := by
   simpa [sortByHeight] using this
 
 end Defra.Crdt
+
+namespace Defra.Crdt
+
+/-- reachable from the heads by following parent links of available blocks -/
+inductive Reach (bs : Blocks) (heads : List Nat) : Nat → Prop where
+  | head {x : Nat} : x ∈ heads → Reach bs heads x
+  | parent {y p : Nat} {b : Block} : Reach bs heads y → bs.get? y = some b → p ∈ b.parents → Reach bs heads p
+
+/-- one level of the breadth-first walk only adds parents of reachable blocks -/
+theorem expand_parents_reach (bs : Blocks) (heads : List Nat) (ps : List Nat) (acc : List Nat × List Nat)
+    (hps : ∀ p ∈ ps, Reach bs heads p) (hacc : ∀ x ∈ acc.1, Reach bs heads x) :
+    ∀ x ∈ (ps.foldl (fun (a : List Nat × List Nat) p =>
+      if a.2.contains p then a else (a.1 ++ [p], a.2 ++ [p])) acc).1, Reach bs heads x := by
+  induction ps generalizing acc with
+  | nil => exact hacc
+  | cons p t ih =>
+    simp only [List.foldl_cons]
+    apply ih _ (fun q hq => hps q (List.mem_cons_of_mem _ hq))
+    split
+    · exact hacc
+    · intro x hx
+      rcases List.mem_append.mp hx with hx | hx
+      · exact hacc x hx
+      · simp only [List.mem_singleton] at hx
+        subst hx
+        exact hps _ List.mem_cons_self
+
+theorem expand_frontier_reach (bs : Blocks) (heads : List Nat) (height : Nat) (frontier : List Nat)
+    (acc : List Nat × List Nat) (hf : ∀ c ∈ frontier, Reach bs heads c) (hacc : ∀ x ∈ acc.1, Reach bs heads x) :
+    ∀ x ∈ (frontier.foldl (fun (acc : List Nat × List Nat) c =>
+        match bs.get? c with
+        | none => acc
+        | some blk =>
+          if blk.height ≤ height then acc
+          else blk.parents.foldl (fun (a : List Nat × List Nat) p =>
+            if a.2.contains p then a else (a.1 ++ [p], a.2 ++ [p])) acc) acc).1, Reach bs heads x := by
+  induction frontier generalizing acc with
+  | nil => exact hacc
+  | cons c t ih =>
+    simp only [List.foldl_cons]
+    apply ih _ (fun q hq => hf q (List.mem_cons_of_mem _ hq))
+    cases hg : bs.get? c with
+    | none => exact hacc
+    | some blk =>
+      simp only
+      split
+      · exact hacc
+      · exact expand_parents_reach bs heads blk.parents acc
+          (fun p hp => Reach.parent (hf c List.mem_cons_self) hg hp) hacc
+
+theorem isMergedAux_sound (bs : Blocks) (heads : List Nat) (target height : Nat) :
+    ∀ (fuel : Nat) (frontier seen : List Nat), (∀ c ∈ frontier, Reach bs heads c) →
+      isMergedAux bs target height fuel frontier seen = true → Reach bs heads target := by
+  intro fuel
+  induction fuel with
+  | zero => intro frontier seen _ h; simp [isMergedAux] at h
+  | succ n ih =>
+    intro frontier seen hf h
+    cases frontier with
+    | nil => simp [isMergedAux] at h
+    | cons c t =>
+      unfold isMergedAux at h
+      by_cases hc : (c :: t).contains target = true
+      · have : target ∈ c :: t := by simpa using hc
+        exact hf target this
+      · simp only [hc, Bool.false_eq_true, if_false] at h
+        exact ih _ _ (expand_frontier_reach bs heads height (c :: t) ([], seen) hf (by intro x hx; cases hx)) h
+
+/-- **`isMerged` never claims more than the truth:** a commit it reports as merged is one of the heads or an
+    ancestor of a head. -/
+theorem isMerged_sound (bs : Blocks) (heads : List Nat) (target height : Nat)
+    (h : isMerged bs heads target height = true) : Reach bs heads target :=
+  isMergedAux_sound bs heads target height _ heads [] (fun _ hc => Reach.head hc) h
+
+end Defra.Crdt
+
+namespace Defra.Crdt
+
+/-! ### the walk reaches every unmerged ancestor -/
+
+/-- a block the walk expands: available and not reported as merged -/
+def Expanded (bs : Blocks) (heads : List Nat) (x : Nat) : Prop :=
+  ∃ b, bs.get? x = some b ∧ isMerged bs heads x b.height = false
+
+/-- blocks not yet visited (the walk's fuel only has to exceed this) -/
+def unvisited (bs : Blocks) (visited : List Nat) : Nat := (bs.filter (fun b => !visited.contains b.id)).length
+
+theorem filter_length_le_of_imp {α} (l : List α) (p q : α → Bool) (h : ∀ x ∈ l, p x = true → q x = true) :
+    (l.filter p).length ≤ (l.filter q).length := by
+  induction l with
+  | nil => simp
+  | cons x t ih =>
+    have iht := ih (fun y hy => h y (List.mem_cons_of_mem _ hy))
+    simp only [List.filter_cons]
+    by_cases hp : p x = true
+    · have hq := h x List.mem_cons_self hp
+      simp only [hp, hq, if_true, List.length_cons]; omega
+    · simp only [hp, Bool.false_eq_true, if_false]
+      split
+      · simp only [List.length_cons]; omega
+      · exact iht
+
+theorem filter_length_lt_of_imp {α} (l : List α) (p q : α → Bool) (h : ∀ x ∈ l, p x = true → q x = true)
+    (hw : ∃ x ∈ l, q x = true ∧ p x = false) : (l.filter p).length < (l.filter q).length := by
+  induction l with
+  | nil => obtain ⟨x, hx, _⟩ := hw; cases hx
+  | cons x t ih =>
+    have himp := fun y hy => h y (List.mem_cons_of_mem _ hy)
+    simp only [List.filter_cons]
+    obtain ⟨w, hwm, hwq, hwp⟩ := hw
+    rcases List.mem_cons.mp hwm with rfl | hwt
+    · have := filter_length_le_of_imp t p q himp
+      simp only [hwp, hwq, Bool.false_eq_true, if_false, if_true, List.length_cons]; omega
+    · have iht := ih himp ⟨w, hwt, hwq, hwp⟩
+      by_cases hp : p x = true
+      · have hq := h x List.mem_cons_self hp
+        simp only [hp, hq, if_true, List.length_cons]; omega
+      · simp only [hp, Bool.false_eq_true, if_false]
+        split
+        · simp only [List.length_cons]; omega
+        · exact iht
+
+theorem unvisited_mono (bs : Blocks) (v1 v2 : List Nat) (h : ∀ x ∈ v1, x ∈ v2) : unvisited bs v2 ≤ unvisited bs v1 := by
+  unfold unvisited
+  apply filter_length_le_of_imp
+  intro b _ hb
+  simp only [Bool.not_eq_true', List.contains_eq_mem, decide_eq_false_iff_not] at hb ⊢
+  exact fun hm => hb (h _ hm)
+
+theorem unvisited_lt (bs : Blocks) (visited : List Nat) (c : Nat) (b : Block) (hg : bs.get? c = some b)
+    (hc : c ∉ visited) : unvisited bs (visited ++ [c]) < unvisited bs visited := by
+  unfold unvisited
+  apply filter_length_lt_of_imp
+  · intro x _ hx
+    simp only [Bool.not_eq_true', List.contains_eq_mem, decide_eq_false_iff_not, List.mem_append, not_or] at hx ⊢
+    exact hx.1
+  · have hmem : b ∈ bs := by unfold Blocks.get? at hg; exact List.mem_of_find?_eq_some hg
+    have hid := Blocks.get?_id hg
+    refine ⟨b, hmem, ?_, ?_⟩
+    · simp only [Bool.not_eq_true', List.contains_eq_mem, decide_eq_false_iff_not, hid]; exact hc
+    · simp [hid]
+
+/-- what a call of the walk guarantees: visited only grows and contains the start; collected only grows; every block
+    visited by this call that the walk expands has all its parents visited and is collected -/
+structure WalkPost (bs : Blocks) (heads : List Nat) (c : Nat) (acc res : List Block × List Nat) : Prop where
+  vmono : ∀ x ∈ acc.2, x ∈ res.2
+  start : c ∈ res.2
+  cmono : ∀ b ∈ acc.1, b ∈ res.1
+  closed : ∀ x ∈ res.2, x ∉ acc.2 → ∀ b, bs.get? x = some b → isMerged bs heads x b.height = false →
+    (∀ p ∈ b.parents, p ∈ res.2) ∧ b ∈ res.1
+
+theorem loadComposites_post (bs : Blocks) (heads : List Nat) :
+    ∀ (fuel c : Nat) (acc : List Block × List Nat), unvisited bs acc.2 < fuel →
+      WalkPost bs heads c acc (loadComposites bs heads fuel c acc) := by
+  intro fuel
+  induction fuel with
+  | zero => intro c acc h; omega
+  | succ n ih =>
+    intro c acc hfuel
+    obtain ⟨coll, visited⟩ := acc
+    unfold loadComposites
+    by_cases hv : visited.contains c = true
+    · simp only [hv, if_true]
+      exact ⟨fun x hx => hx, by simpa using hv, fun b hb => hb, fun x hx hnx => absurd hx hnx⟩
+    · simp only [hv, Bool.false_eq_true, if_false]
+      have hvn : c ∉ visited := by simpa using hv
+      have hcv : c ∈ visited ++ [c] := List.mem_append_right _ (List.mem_singleton.mpr rfl)
+      cases hg : bs.get? c with
+      | none =>
+        refine ⟨fun x hx => List.mem_append_left _ hx, hcv, fun b hb => hb, ?_⟩
+        intro x hx hnx b hb _
+        rcases List.mem_append.mp hx with hx | hx
+        · exact absurd hx hnx
+        · simp only [List.mem_singleton] at hx; subst hx; rw [hg] at hb; cases hb
+      | some blk =>
+        simp only
+        by_cases hm : isMerged bs heads c blk.height = true
+        · simp only [hm, if_true]
+          refine ⟨fun x hx => List.mem_append_left _ hx, hcv, fun b hb => hb, ?_⟩
+          intro x hx hnx b hb hnm
+          rcases List.mem_append.mp hx with hx | hx
+          · exact absurd hx hnx
+          · simp only [List.mem_singleton] at hx
+            subst hx
+            rw [hg] at hb; cases hb
+            rw [hm] at hnm; cases hnm
+        · simp only [hm, Bool.false_eq_true, if_false]
+          -- fold over the parents, starting from (blk :: coll, visited ++ [c])
+          have hfuel0 : unvisited bs (visited ++ [c]) < n := by
+            have := unvisited_lt bs visited c blk hg hvn
+            simp only at hfuel; omega
+          -- generalised statement about the fold
+          have fold : ∀ (ps : List Nat) (a : List Block × List Nat),
+              unvisited bs a.2 < n →
+              let r := ps.foldl (fun acc p => loadComposites bs heads n p acc) a
+              (∀ x ∈ a.2, x ∈ r.2) ∧ (∀ b ∈ a.1, b ∈ r.1) ∧ (∀ p ∈ ps, p ∈ r.2) ∧
+              (∀ x ∈ r.2, x ∉ a.2 → ∀ b, bs.get? x = some b → isMerged bs heads x b.height = false →
+                (∀ p ∈ b.parents, p ∈ r.2) ∧ b ∈ r.1) := by
+            intro ps
+            induction ps with
+            | nil =>
+              intro a _
+              refine ⟨fun x hx => hx, fun b hb => hb, ?_, fun x hx hnx => absurd hx hnx⟩
+              intro p hp
+              cases hp
+            | cons p t iht =>
+              intro a ha
+              simp only [List.foldl_cons]
+              have h1 := ih p a ha
+              have ha' : unvisited bs (loadComposites bs heads n p a).2 < n :=
+                Nat.lt_of_le_of_lt (unvisited_mono bs _ _ h1.vmono) ha
+              obtain ⟨t1, t2, t3, t4⟩ := iht (loadComposites bs heads n p a) ha'
+              refine ⟨fun x hx => t1 x (h1.vmono x hx), fun b hb => t2 b (h1.cmono b hb), ?_, ?_⟩
+              · intro q hq
+                rcases List.mem_cons.mp hq with rfl | hq
+                · exact t1 _ h1.start
+                · exact t3 q hq
+              · intro x hx hnx b hb hnm
+                by_cases hx1 : x ∈ (loadComposites bs heads n p a).2
+                · obtain ⟨c1, c2⟩ := h1.closed x hx1 hnx b hb hnm
+                  exact ⟨fun q hq => t1 q (c1 q hq), t2 b c2⟩
+                · exact t4 x hx hx1 b hb hnm
+          obtain ⟨f1, f2, f3, f4⟩ := fold blk.parents (blk :: coll, visited ++ [c]) hfuel0
+          refine ⟨fun x hx => f1 x (List.mem_append_left _ hx), f1 c hcv,
+            fun b hb => f2 b (List.mem_cons_of_mem _ hb), ?_⟩
+          intro x hx hnx b hb hnm
+          by_cases hxc : x = c
+          · subst hxc
+            rw [hg] at hb; cases hb
+            exact ⟨f3, f2 _ List.mem_cons_self⟩
+          · have hnx' : x ∉ visited ++ [c] := by
+              intro hmem
+              rcases List.mem_append.mp hmem with h | h
+              · exact hnx h
+              · simp only [List.mem_singleton] at h; exact hxc h
+            exact f4 x hx hnx' b hb hnm
+
+/-- an ancestor-or-self of `c` reached through blocks the walk expands -/
+inductive UPath (bs : Blocks) (heads : List Nat) (c : Nat) : Nat → Prop where
+  | self : UPath bs heads c c
+  | step {y p : Nat} {b : Block} : UPath bs heads c y → bs.get? y = some b →
+      isMerged bs heads y b.height = false → p ∈ b.parents → UPath bs heads c p
+
+/-- **The walk reaches every unmerged ancestor:** whatever can be reached from the start through available blocks
+    that are not reported as merged is visited, and if it is itself such a block it is collected. -/
+theorem walk_reaches (bs : Blocks) (heads : List Nat) (c x : Nat) (hp : UPath bs heads c x) :
+    x ∈ (loadComposites bs heads (bs.length + 1) c ([], [])).2 ∧
+    ∀ b, bs.get? x = some b → isMerged bs heads x b.height = false →
+      b ∈ (loadComposites bs heads (bs.length + 1) c ([], [])).1 := by
+  have hfuel : unvisited bs ([] : List Nat) < bs.length + 1 := by
+    unfold unvisited
+    exact Nat.lt_succ_of_le (List.length_filter_le _ _)
+  have post := loadComposites_post bs heads (bs.length + 1) c ([], []) hfuel
+  have hvis : x ∈ (loadComposites bs heads (bs.length + 1) c ([], [])).2 := by
+    induction hp with
+    | self => exact post.start
+    | step _ hg hnm hpar ih => exact (post.closed _ ih (by simp) _ hg hnm).1 _ hpar
+  exact ⟨hvis, fun b hb hnm => (post.closed x hvis (by simp) b hb hnm).2⟩
+
+end Defra.Crdt
